@@ -97,6 +97,7 @@ VARIABLES
   up, gen, reading, inflight, recvP, recvB, lostP, lostB, mayTorn,
   \* history: what an exact account would say
   sockP, sockB,   \* payloads / bytes the socket accepted (send returned Ok)
+  attP, attB,     \* payloads / bytes handed to try_send, whatever the outcome
   acc,            \* sum of Delta(upd) over all finished rounds
   skipped,        \* the part of acc that was not applied (had_updates() said no)
   devGate,        \* [deviation XF01a] a round that did something (contexts, packets, bytes, serializer drops) was skipped
@@ -105,7 +106,7 @@ VARIABLES
 fvars == <<pc, pending, produced, upd, tel, telInit, cstate, conn, connGen, nextConn>>
 svars == <<ctr, idle, gau, his>>
 avars == <<up, gen, reading, inflight, recvP, recvB, lostP, lostB, mayTorn>>
-hvars == <<sockP, sockB, acc, skipped, devGate>>
+hvars == <<sockP, sockB, attP, attB, acc, skipped, devGate>>
 bvars == <<rounds, nops, restarts, stalls>>
 vars == <<svars, fvars, avars, hvars, bvars>>
 
@@ -117,7 +118,7 @@ InitC(c0) ==
   /\ cstate = "disc" /\ conn = 0 /\ connGen = 0 /\ nextConn = 1
   /\ up = TRUE /\ gen = 1 /\ reading = TRUE /\ inflight = <<>> /\ recvP = 0 /\ recvB = 0 /\ lostP = 0 /\ lostB = 0
   /\ mayTorn = {}
-  /\ sockP = 0 /\ sockB = 0 /\ acc = ZeroT /\ skipped = ZeroT /\ devGate = FALSE
+  /\ sockP = 0 /\ sockB = 0 /\ attP = 0 /\ attB = 0 /\ acc = ZeroT /\ skipped = ZeroT /\ devGate = FALSE
   /\ rounds = 0 /\ nops = 0 /\ restarts = 0 /\ stalls = 0
 Init == InitC([k \in CKall |-> NoCtr])
 
@@ -210,13 +211,14 @@ SendOkCore(p, len) ==
      /\ Valid(c) /\ SetConn(c, "ready")
      /\ inflight' = Append(inflight, [p |-> p, len |-> len, conn |-> c.id])
   /\ upd' = [upd EXCEPT !.psent = @ + 1, !.bsent = @ + len]                 \* track_packet_send_succeeded
-  /\ sockP' = sockP + 1 /\ sockB' = sockB + len
+  /\ sockP' = sockP + 1 /\ sockB' = sockB + len /\ attP' = attP + 1 /\ attB' = attB + len
   /\ UNCHANGED mayTorn /\ SendFrame
 \* connect refused / peer gone: the payload is dropped, the client is Disconnected
 SendRefusedCore(len) ==
   /\ pc = "send"
   /\ LET c == ConnAfter IN ~Valid(c) /\ SetConn(c, "disc")
   /\ upd' = Failed(len)                                                      \* track_packet_send_failed
+  /\ attP' = attP + 1 /\ attB' = attB + len
   /\ UNCHANGED <<inflight, mayTorn, sockP, sockB>> /\ SendFrame
 \* the agent is not reading and the kernel buffer is full: the write timeout fires (stream: possibly mid-frame)
 SendTimeoutCore(len) ==
@@ -225,6 +227,7 @@ SendTimeoutCore(len) ==
      /\ Valid(c) /\ SetConn(c, "disc")
      /\ mayTorn' = IF Stream THEN mayTorn \cup {c.id} ELSE mayTorn
   /\ upd' = Failed(len)
+  /\ attP' = attP + 1 /\ attB' = attB + len
   /\ UNCHANGED <<inflight, sockP, sockB>> /\ SendFrame
 
 SendOk(p, len)      == p \in pending /\ SendOkCore(p, len) /\ pending' = pending \ {p}
@@ -250,11 +253,11 @@ ApplyCore ==
                                      ELSE ctr[k]]
                ELSE ctr
   /\ pc' = "sleep" /\ upd' = ZeroU /\ produced' = {}
-  /\ UNCHANGED <<idle, gau, his, cstate, conn, connGen, nextConn, avars, sockP, sockB, bvars>>
+  /\ UNCHANGED <<idle, gau, his, cstate, conn, connGen, nextConn, avars, sockP, sockB, attP, attB, bvars>>
 Apply == pending = {} /\ ApplyCore /\ UNCHANGED pending
 
 \* ------------------------------------------------------------------ the agent
-AFrame == UNCHANGED <<svars, fvars, sockP, sockB, acc, skipped, devGate, rounds, nops>>
+AFrame == UNCHANGED <<svars, fvars, hvars, rounds, nops>>
 SumLen(s) == FoldLeft(LAMBDA a, e : a + e.len, 0, s)
 \* reads everything the kernel holds
 AgentRead == /\ up /\ reading /\ inflight # <<>>
@@ -281,7 +284,10 @@ KindNo(p) == CASE p.kind = "c" -> 1 [] p.kind = "g" -> 2 [] OTHER -> 3
 Before(p, q) == \/ KindNo(p) < KindNo(q)
                 \/ KindNo(p) = KindNo(q) /\ (p.key < q.key \/ (p.key = q.key /\ p.part <= q.part))
 Sendable == IF AnyOrder THEN pending ELSE {p \in pending : \A q \in pending : Before(p, q)}
-SendNext == \E p \in Sendable, b \in Lens : SendOk(p, b + Prefix) \/ SendRefused(p, b + Prefix) \/ SendTimeout(p, b + Prefix)
+SendOkA      == \E p \in Sendable, b \in Lens : SendOk(p, b + Prefix)
+SendRefusedA == \E p \in Sendable, b \in Lens : SendRefused(p, b + Prefix)
+SendTimeoutA == \E p \in Sendable, b \in Lens : SendTimeout(p, b + Prefix)
+SendNext == SendOkA \/ SendRefusedA \/ SendTimeoutA
 AgentNext == AgentRead \/ AgentDown \/ AgentUp \/ AgentStall \/ AgentResume
 Next == AppNext \/ Flush \/ SendNext \/ Apply \/ AgentNext
 Spec == Init /\ [][Next]_vars
@@ -322,6 +328,10 @@ TelVsSocket == TelemetryOn => /\ tel.psent + skipped.psent + upd.psent = sockP
 \* what the socket accepted was read by the agent, is still in the kernel, or died with the agent's socket
 SocketConservation == /\ sockP = recvP + Len(inflight) + lostP
                       /\ sockB = recvB + SumLen(inflight) + lostB
+\* every payload (byte) handed to the socket layer is counted exactly once: as sent or as dropped by the writer
+Attempts == TelemetryOn =>
+  /\ tel.psent + tel.pdropw + skipped.psent + skipped.pdropw + upd.psent + upd.pdropw = attP
+  /\ tel.bsent + tel.bdrop + skipped.bsent + skipped.bdrop + upd.bsent + upd.bdrop = attB
 TelemetryOff == ~TelemetryOn => (tel = ZeroT /\ ~telInit)
 \* Telemetry::new runs only after a round that counted points
 LazyInit == (GateOnPoints /\ telInit) => acc.metrics > 0
